@@ -110,6 +110,23 @@ theorem paged_stops_at_first_failure (ex : ExecParams) (plans : Nat → List Tar
     · refine ⟨by simp, ?_⟩
       intro i hi; simp at hi
 
+/-- **The single-connection pager never retries**: whatever the prepared statement's flag, the consistency and the
+answers, every page fetch makes at most one attempt (one statement frame, or two when the first one is answered
+UNPREPARED and re-prepared inside that attempt). -/
+theorem single_connection_pager_one_attempt_per_page (preparedIdem : Bool) (cl : Consistency) (timeout : Option Nat)
+    (plans : Nat → List Target) (kind : StmtKind) (answers : Nat → Nat → Answers) (rounds pages : Nat)
+    (w : WireTrace)
+    (hw : w ∈ pagedRun (singleConnectionPagerParams preparedIdem cl timeout) plans kind answers rounds pages 0 none) :
+    w.trace.attempts.length ≤ 1 := by
+  obtain ⟨i, rfl⟩ := pagedRun_mem _ plans kind answers rounds pages 0 none w hw
+  exact fallthrough_single_attempt _ _ _ _
+
+example :
+    (pagedRun (singleConnectionPagerParams true .localQuorum none) (fun _ => [.always]) .execute
+      (fun j _ => ⟨fun _ => if j = 1 then .fail (.dbError (.unavailable 1)) else .ok, fun _ => .ok, fun _ => true⟩)
+      3 3 0 none).map (fun w => (w.trace.attempts.length, w.trace.final))
+    = [(1, .completed 0), (1, .stopped (.dbError (.unavailable 1)))] := by decide
+
 -- a non-idempotent SELECT over three pages, default policy: page 1 is answered Overloaded - NOT re-sent, the
 -- iteration fails there (2 fetches); with IsBootstrapping instead it is re-sent on the next node and all pages come
 example :
